@@ -463,7 +463,7 @@ def _single_assign_env(fn: FunctionInfo) -> dict[str, ast.AST]:
         if isinstance(n, ast.Assign):
             for t in n.targets:
                 for nm in ast.walk(t):
-                    if isinstance(nm, ast.Name):
+                    if isinstance(nm, ast.Name) and isinstance(nm.ctx, ast.Store):
                         counts[nm.id] = counts.get(nm.id, 0) + 1
                         if isinstance(t, ast.Name):
                             vals[nm.id] = n.value
